@@ -37,6 +37,7 @@ structure DSt where
   holders : List (Nat × Bool) := []        -- implementation: who believes to hold (from markers)
   present : List String := []              -- implementation: lock files in the backend (from ok saves/removes)
   own : List (String × Nat) := []          -- implementation: which process saved which lock file
+  loaded : List (Nat × String) := []       -- implementation: which process has read which lock file successfully
   modelErr : Option Verdict := none        -- first step of the trace the model does not allow (replay stops there)
   labels : List String := []
   nacq : Nat := 0
@@ -86,13 +87,21 @@ def implTrack (st : DSt) (r : Array String) : Except Verdict DSt :=
   match r.getD 0 "" with
   | "ev" =>
     let op := r.getD 3 ""; let name := r.getD 4 "-"; let ok := r.getD 5 "0" == "1"
-    if op == "save" && ok then .ok { st with present := name :: st.present, own := (name, i) :: st.own }
+    if op == "load" && ok then .ok { st with loaded := (i, name) :: st.loaded }
+    else if op == "load" then .ok (st.label "lock-unreadable")
+    else if op == "save" && ok then .ok { st with present := name :: st.present, own := (name, i) :: st.own }
     else if op == "remove" && ok then
       -- a remover deleting the lock of a process that believes to hold it
       let owner := (st.own.find? (·.1 == name)).map (·.2)
       if st.kinds.getD i "locker" == "remover" && (match owner with | some j => st.holders.any (·.1 == j) && !(st.own.any fun o => o.2 == j && o.1 != name && st.present.contains o.1) | none => false) then
         .error (.specfalse "C12:stale-removal-of-active-lock" s!"remover {i} deleted lock {name}, the only lock file of a process that believes it holds the lock")
-      else .ok { st with present := st.present.erase name }
+      else
+        let st := { st with present := st.present.erase name }
+        -- guard of the remover's step in the model: a lock is removed only after it was read and judged
+        -- stale (or its owner dead); a lock file the remover could not read is never removed
+        if st.kinds.getD i "locker" == "remover" && !st.loaded.contains (i, name) && st.modelErr.isNone then
+          .ok { st with modelErr := some (.differ "remover" s!"process {i} deleted lock {name} without having read it") }
+        else .ok st
     else .ok st
   | "mk" =>
     let excl := st.excls.getD i false
